@@ -23,4 +23,21 @@ theorem le_field_roundtrip (n v : Nat) (h : v < 256 ^ n) : Cursor.leNat (OutCurs
 
 example : Cursor.beNat (OutCursor.beBytes 2 0xabcd) = 0xabcd := by decide
 
+/-- **l2_whole_packet_c03** — C03 as stated, for whole packets of any depth made of the link-layer family (EthernetII, 802.3,
+    LLC, SNAP, 802.1Q incl. QinQ, MPLS label stacks, PPPoE, SLL, Loopback) over an optional RawPDU: if libtins accepts `b`
+    as such a stack, then serializing it succeeds, parsing the serialization succeeds and yields the same classes in the
+    same order with the same views (derived lengths / tags above a recognised payload excluded, at most `padOf os` bytes of
+    minimum-frame padding behind the payload), and — when the innermost payload is non-empty — serializing the re-parsed
+    packet reproduces the bytes.  Proved by induction over the stack from the per-class `*_reparse` theorems and the
+    generated next-protocol tables (`Wire/L2/ThChain*.lean`).  The other families have the per-class halves
+    (`ip4_reparse`, `ipv6_reparse`, `tcp_reparse`, `udp_reparse`, `icmp_reparse_*`, `icmp6_reparse_*`, `ah_reparse`,
+    `esp_reparse`, the App and Wifi `*_reparse` theorems); lifting them through the IP / IPv6 dispatch is correspondence +
+    oracle so far. -/
+theorem l2_whole_packet_c03 (cls : String) (b : Bytes) (os : List Wire.AnyObj)
+    (hparse : Wire.parseChain (b.length + 2) cls b = .ok os) (hall : ∀ o ∈ os, Wire.L2.L2Ser o) :
+    ∃ out, Wire.serializeObjs os = .ok out ∧
+      ∃ os', Wire.parseChain (out.length + 2) cls out = .ok os' ∧ Wire.L2.ViewEq (Wire.L2.padOf os) os os' ∧
+        ((Wire.L2.splitRaw os).2 ≠ [] → Wire.serializeObjs os' = .ok out) :=
+  Wire.L2.l2_c03 cls b os hparse hall
+
 end Tins.Props.C03
